@@ -24,7 +24,10 @@
 (*   coef[1..k'][1..p]  fitted coefficients, column j rounded to           *)
 (*                  round(w * 2^wS[j]);  k' = 1 for two classes, else k    *)
 (*   icept[1..k']   fitted intercepts rounded to round(b * 2^bS)           *)
-(*   wOk            all of them finite and < 2^15 after scaling            *)
+(*   coefRows, coefCols, iceptLen   the shape of what fit returned         *)
+(*   wFin           all coefficients and intercepts are finite numbers     *)
+(*   wOk            ... and below 2^15 after scaling (else coef, icept are *)
+(*                  empty and the event is not judged numerically)         *)
 (*   pred2[1..m]    predicted labels times two; predOk: all are integers   *)
 (*                                                                         *)
 (* Conventions about the returned model that the statement leaves          *)
@@ -74,13 +77,17 @@ InputOK(e) ==      \* what the generator promises (anything else is a harness er
     /\ \A i \in 1..Len(e.Q) : \A j \in 1..e.p : Abs(e.Q[i][j]) <= 4096
 
 ShapeOK(e) ==      \* fit returned a model of the right shape, predict one label per query
+    /\ e.coefRows = Rows(e) /\ e.coefCols = e.p /\ e.iceptLen = Rows(e)
+    /\ (e.predOk => Len(e.pred2) = Len(e.Q))
+FiniteOK(e) == e.wFin     \* ... made of numbers: at a NaN model no objective value is "not above the start"
+RecordedOK(e) ==   \* the fixed-point copy of the model is present
     /\ e.wOk
     /\ Len(e.coef) = Rows(e) /\ Len(e.icept) = Rows(e) /\ Len(e.wS) = e.p
     /\ \A c \in 1..Rows(e) : Len(e.coef[c]) = e.p
-    /\ Len(e.pred2) = Len(e.Q)
 
 (* the linear scores can be evaluated within 32 bits at 2^-12 resolution *)
 Scorable(e) ==
+    /\ RecordedOK(e) /\ e.predOk
     /\ e.bS \in 0..30
     /\ \A j \in 1..e.p : e.wS[j] \in 0..30 /\ e.wS[j] + e.xS >= 12
     /\ \A c \in 1..Rows(e) : Abs(e.icept[c]) < One /\ \A j \in 1..e.p : Abs(e.coef[c][j]) < One
